@@ -7,7 +7,9 @@ import WuffsVerif.Model.LivenessRun
 
 namespace WuffsVerif.Liveness
 
-theorem evalEx_path (R : Nat → Bool) (cfg : Cfg) (e : Ex) (st : RState) :
+variable {W : Type}
+
+theorem evalEx_path (R : Nat → Bool) (cfg : Cfg W) (e : Ex) (st : RState W) :
     ExprPath e (evalEx R cfg e st).2.2 := by
   unfold evalEx
   cases hc : e.coro
@@ -19,13 +21,13 @@ theorem evalEx_path (R : Nat → Bool) (cfg : Cfg) (e : Ex) (st : RState) :
     · simp only [↓reduceIte]
       exact ExprPath.io _ hc hi
 
-theorem evalExOpt_path (R : Nat → Bool) (cfg : Cfg) (oe : Option Ex) (st : RState) :
+theorem evalExOpt_path (R : Nat → Bool) (cfg : Cfg W) (oe : Option Ex) (st : RState W) :
     OptExprPath oe (evalExOpt R cfg oe st).2 := by
   cases oe with
   | none => simp [evalExOpt, OptExprPath]
   | some e => simp only [evalExOpt, OptExprPath]; exact evalEx_path R cfg e st
 
-theorem evalAssign_path (R : Nat → Bool) (cfg : Cfg) (op : AOp) (lhs : Lhs) (rhs : Ex) (st : RState) :
+theorem evalAssign_path (R : Nat → Bool) (cfg : Cfg W) (op : AOp) (lhs : Lhs) (rhs : Ex) (st : RState W) :
     AssignPath op lhs rhs (evalAssign R cfg op lhs rhs st).2 := by
   unfold evalAssign AssignPath
   by_cases hq : op = AOp.eqQuestion
@@ -46,7 +48,7 @@ theorem evalAssign_path (R : Nat → Bool) (cfg : Cfg) (op : AOp) (lhs : Lhs) (r
         exact ⟨_, _, evalEx_path R cfg rhs st, rfl, rfl⟩
 
 /-- What `run` promises about its events, per task. -/
-def PathOf : Task → Res → Prop
+def PathOf : Task → Res W → Prop
   | Task.stmt s, r => (r.out = Out.stop ∧ r.evs = []) ∨ stmtPaths s r.evs r.out
   | Task.block b, r => blockPaths b r.evs r.out
   | Task.loop wt c body, r => LoopPath (ExprPath c) wt (blockPaths body) r.evs r.out
@@ -56,7 +58,7 @@ theorem blockPaths_stop (b : List Stmt) : blockPaths b [] Out.stop := by
   | nil => simp [blockPaths]
   | cons s rest => simp [blockPaths]
 
-theorem run_path (R : Nat → Bool) (cfg : Cfg) : ∀ (f : Nat) (task : Task) (st : RState),
+theorem run_path (R : Nat → Bool) (cfg : Cfg W) : ∀ (f : Nat) (task : Task) (st : RState W),
     PathOf task (run R cfg f task st)
   | 0, task, st => by
     cases task with
